@@ -370,3 +370,42 @@ for _cls in data_c.MATHS:
         loops={0: Loop(ghost={'contents': 'seq[E]'}, invariant=_LIST_INV('contents'), decreases=MEASURE,
                        modifies=['src.i', 'src.m'])}))
 data_c.CONCAT_HOOKS.append(lambda st, old, add, new: st.fact(CLN(new) == And(CLN(old), CLN(add))))
+
+
+# ---------------------------------------------------------------------- read_env / read_skip_env
+_ENDTXT = 'concat("\\\\end{", expr.name, "}")'
+_FIVE = ('src.i >= old(src.i) + 5 and src.Q[src.i - 5].cat == TC.Escape and src.Q[src.i - 4].text == "end" and '
+         'src.Q[src.i - 3].cat == TC.GroupBegin and src.Q[src.i - 2].text == expr.name and '
+         'src.Q[src.i - 1].cat == TC.GroupEnd')
+_ENV_TYPES = {'src': 'Buffer', 'expr': 'UExpr:data.TexNamedEnv', 'skip_envs': 'seq[str]', 'tolerance': 'int',
+              'mode': 'str'}
+_env_exact = P(['C08', 'C01'], 'exact',
+               'tolerance == 0 and TL(expr.contents) ==> concat(SL(expr.contents), %s) == '
+               'concat(SL(old(expr.contents)), %s)' % (_ENDTXT, Wx('old(src.i)', 'src.i')))
+_env_nonblank = P(['C08'], 'non-blank',
+                  'tolerance == 0 and CLN(expr.contents) ==> concat(NW(SL(expr.contents)), NW(%s)) == '
+                  'concat(NW(SL(old(expr.contents))), NW(%s))' % (_ENDTXT, Wx('old(src.i)', 'src.i')))
+REG.add(Contract(
+    'reader.read_env', types=_ENV_TYPES, result='UExpr', requires=SRC_REQ,
+    modifies=['src.i', 'src.m', 'expr.contents'], props=['C06', 'C08', 'C07', 'C01', 'C02'],
+    measure=(MEASURE, RANK['read_env']), raises=dict(ALLOWED),
+    ensures=SRC_KEEP + [
+        A('same-object', 'result is expr'),
+        A('tight-monotone', 'TL(expr.contents) ==> TL(old(expr.contents))'),
+        A('clean-monotone', 'CLN(expr.contents) ==> CLN(old(expr.contents))'),
+        _env_exact.outside('D5', _FIVE), _env_nonblank.outside('D5', _FIVE)],
+    loops={0: Loop(ghost={'contents': 'seq[E]'}, invariant=_LIST_INV('contents'), decreases=MEASURE,
+                   modifies=['src.i', 'src.m'])}))
+
+REG.add(Contract(
+    'reader.read_skip_env', types={'src': 'Buffer', 'expr': 'UExpr:data.TexNamedEnv'}, result='UExpr',
+    requires=SRC_REQ, modifies=['src.i', 'src.m', 'expr.contents'], props=['C06', 'C08', 'C11', 'C01'],
+    measure=(MEASURE, RANK['read_skip_env']), raises={'EOFError': ALLOWED['EOFError']},
+    ensures=SRC_KEEP + [
+        A('same-object', 'result is expr'),
+        P(['C11'], 'body-is-one-raw-text', 'len(expr.contents) <= len(old(expr.contents)) + 1'),
+        A('tight-monotone', 'TL(expr.contents) ==> TL(old(expr.contents))'),
+        A('clean-monotone', 'CLN(expr.contents) ==> CLN(old(expr.contents))'),
+        P(['C08', 'C11', 'C01'], 'exact',
+          'concat(SL(expr.contents), %s) == concat(SL(old(expr.contents)), %s)'
+          % (_ENDTXT, Wx('old(src.i)', 'src.i'))).outside('D5', _FIVE)]))
